@@ -62,7 +62,7 @@ def correspondence(ctx):
             for b in fam:
                 cases.append(f'prof|{prof}|compare|f|b|{hexs(a)}|{hexs(b)}')
             cases.append(f'prof|{prof}|enforce|f|b|{hexs(a)}|')
-    alpha = {'um': USER_ALPHA[:14], 'up': USER_ALPHA[:14], 'op': FREE_ALPHA[:12], 'nick': FREE_ALPHA[:12] + [0x1F88, 0x1C5]}
+    alpha = {'um': xa(ctx, USER_ALPHA[:14], 4), 'up': xa(ctx, USER_ALPHA[:14], 4), 'op': xa(ctx, FREE_ALPHA[:12], 4), 'nick': xa(ctx, FREE_ALPHA[:12] + [0x1F88, 0x1C5], 4)}
     n = 2 if ctx.tier == 'quick' else 3
     for prof in FAMILIES:
         strs = list(all_strings(alpha[prof], n, 0))
